@@ -116,6 +116,17 @@ def comparable_diff(a, b):
     return a != b and (contains(a, b) or contains(b, a) or (is_const(a) and is_const(b)))
 
 
+def _task_axes(sim, L):
+    """(object, axis of the task index, shape term) for every store a task makes into an object it did not create"""
+    out = set()
+    for e in task_events(sim, L):
+        if e.kind == "store" and shared(sim, L, e.oid):
+            pos = lv_positions(e.sel, L.lv)
+            if len(pos) == 1:
+                out.add((e.oid, pos[0], e.shape if e.shape is not None else sim.heap[e.oid].shape))
+    return sorted(out, key=repr)
+
+
 def launches(an):
     for q, (rel, fn, K, live, leaves) in an.entries.items():
         for lf in leaves:
@@ -159,18 +170,6 @@ def r1_disjoint_writes(ctx):
             ag.add(f"{w}: the task index is always on the same axis of {lab} -> tasks touch disjoint slices", ok, L.node, sorted(ps))
             if not ok:
                 continue
-            p = next(iter(ps))
-            for _, shp in ax:
-                shp = shp if shp is not None else sim.heap[oid].shape
-                if is_tag(shp, "tuple") and p < len(shp) - 1 and L.count is not None:
-                    dim = lf.term(shp[1 + p])
-                    cnt = lf.term(L.count)
-                    if dim == cnt:
-                        ag.add(f"{w}: the task-index axis of {lab} has one entry per task", True, L.node)
-                    elif comparable_diff(dim, cnt):
-                        ag.add(f"{w}: the task-index axis of {lab} has one entry per task", False, L.node, {"axis length": show(dim), "tasks": show(cnt)})
-                    else:
-                        ctx.note(f"{w}: length of the task axis of {lab} ({show(dim)[:80]}) not compared with the number of tasks ({show(cnt)[:80]})")
     ag.flush()
     labs = sorted({l for _, l in written_labels})
     ctx.check(len(labs) >= 5, "written shared arrays bound: SRSmax_, HIST_, ASV_, BinAmps_, Count_", SRS + ":1", labs, nontrivial=False)
@@ -201,6 +200,11 @@ def r2_readonly(ctx):
                 what = f"the task's own slice of {lab}" if ok else f"shared array {lab} outside the task's own slice"
             ag.add(f"{w}: in-place operation `{src(e.node)}` touches {what if ok else 'only task-local data or the own slice'}", ok, e.node,
                    None if ok else what)
+        for c, node, name, fname in sim.unbound:
+            if c == ("task", L.lid):
+                ag.add(f"{w}: `{src(node)}` in {fname} assigns the process global {name} without a `global` declaration", False, node,
+                       "Python treats the name as a local of the function: the read raises UnboundLocalError in the worker (with the declaration it "
+                       "would overwrite the shared array)")
         for oid in sorted(touched - written):
             if not shared(sim, L, oid) or sim.heap[oid].kind not in ("raw", "array"):
                 continue
@@ -242,6 +246,17 @@ def r3_no_other_channel(ctx):
         ok = is_tag(el, "tuple") and len(el) == 3 and el[1] == L.lv and not contains(sim.snap(el[2], record=False), L.lv)
         ag.add(f"{q}: each task is (index, arguments) with the index running over the task range and the arguments the same for every task "
                f"[{w}]", ok, L.node, None if ok else show(sim.snap(el, record=False))[:200])
+        for oid, p, shp in _task_axes(sim, L):
+            lab = label(sim, oid)
+            if is_tag(shp, "tuple") and p < len(shp) - 1 and L.count is not None:
+                dim, cnt = lf.term(shp[1 + p]), lf.term(L.count)
+                txt = f"{q}: one task per index of the task axis of {lab} (as many tasks as entries) [{w}]"
+                if dim == cnt:
+                    ag.add(txt, True, L.node)
+                elif comparable_diff(dim, cnt):
+                    ag.add(txt, False, L.node, {"axis length": show(dim)[:200], "tasks": show(cnt)[:200]})
+                else:
+                    ctx.note(f"{w}: length of the task axis of {lab} ({show(dim)[:80]}) not compared with the number of tasks ({show(cnt)[:80]})")
         pool = sim.pools[L.pid]
         T = pool.processes
         if T != NONE and not is_const(T):
